@@ -74,6 +74,9 @@ def run():
     res2 = core.tlc('Toc', 'TocQ2.cfg', workers=1, timeout=3000, heap='6g')      # longer outlines (drops of two and more levels), two variants
     ck.add_tlc(res2)
     docs += res2.printed_json()
+    res3 = core.tlc('Toc', 'TocQ3.cfg', workers=1, timeout=3000, heap='6g')      # repeated heading texts at different levels
+    ck.add_tlc(res3)
+    docs += res3.printed_json()
     if len(docs) < 2000:
         raise core.MachineryError('Toc.tla exported only %d documents' % len(docs))
     chunk = 100
